@@ -22,7 +22,7 @@ STUBS = ['max/min inside the module: if-then-else terms instead of forks (same v
          'deterministic stubs recording their calls', 'PIL/matplotlib plotting not reached (visualize=None)']
 ASSUMPTIONS = ['fixed modules lie inside the die initially', 'one iteration from an arbitrary state is the inductive step for any iteration count']
 NOT_DECIDED = ['finiteness (NaN/overflow) of the centres through the float iteration', 'two or more unrolled iterations', 'visualisation']
-MUST_REACH = ['layout', 'force', 'fp-fixed']
+MUST_REACH = ['layout', 'force', 'force-wl', 'fp-fixed']
 
 
 def setup():
@@ -57,6 +57,12 @@ def cases(tier):
         for zx, zy in ((0, 0), (1, 1), (2, 1), (1, 2)):
             cs.append(dict(kind='layout', mods=3, max_iter=1, zone=[zx, zy], twice=False))
     cs.append(dict(kind='force'))
+    # the candidate layouts move the centres (symbolic positions) and the REAL Netlist.wire_length is read; with and without the
+    # wire length of the input having been read before the relocation
+    # (4 of the 12 candidates symbolic at a time -- 16 orderings each -- the others at concrete, more expensive places)
+    for free in ([0, 1, 2, 3], [4, 7, 10, 11]) + (([2, 5, 6, 8, 9], [0, 3, 6, 9, 11]) if tier == 'thorough' else ()):
+        for pre in (False, True):
+            cs.append(dict(kind='force-wl', pre_read=pre, free=free))
     cs.append(dict(kind='fp-fixed'))
     return cs
 
@@ -131,6 +137,8 @@ def body(I, case):
         return body_layout(I, case)
     if case['kind'] == 'force':
         return body_force(I, case)
+    if case['kind'] == 'force-wl':
+        return body_force_wl(I, case)
     return body_fp(I, case)
 
 
@@ -212,6 +220,41 @@ def body_force(I, case):
     I.prove('final-layout-on-the-original-die', calls[-1][0] is die and out is die)
     I.prove('chosen-has-the-smallest-cost', k >= 0 and And(*[tot[k] <= t for t in tot]))
     I.prove('first-among-ties', k >= 0 and And(*[tot[j] > tot[k] for j in range(k)]))
+
+
+def body_force_wl(I, case):
+    die, net, W, H, _ = build(I, dict(mods=2, concrete=True))
+    symx.UF_NONLINEAR = False
+    KAPPAS = [i / 10 for i in range(4, 16)]
+    pos, inter, calls = {}, [], []
+
+    def st_layout(d, kappa=1.0, verbose=False, visualize=None, max_iter=100):
+        j = len(calls)
+        calls.append((d, kappa))
+        if j < 12:   # a candidate: the soft module ends somewhere on the fixed module's horizontal line
+            px = I.real(f'px{j}', 0, 10) if j in case['free'] else 3.0 + 0.5 * j
+            pos[j] = px
+            d.netlist.get_module('S0').center = Point(px, 2.5)
+        return d, []
+
+    def st_inter(d):
+        v = I.real(f'inter{len(inter)}', 0, 1000) if len(inter) in case['free'] else 500.0 + len(inter)
+        inter.append(v)
+        return v
+    if case['pre_read']:
+        before = die.netlist.wire_length   # reading an observable of the input must not change the relocation
+    saved = (FR.fruchterman_reingold_layout, FR.total_intersection_area)
+    FR.fruchterman_reingold_layout, FR.total_intersection_area = st_layout, st_inter
+    try:
+        out, imgs = FR.force_algorithm(die, False, None, 7)
+    finally:
+        FR.fruchterman_reingold_layout, FR.total_intersection_area = saved
+    I.reached('force-wl')
+    # definition: the net {FX, S0} of weight 2: 2 * (sum of the two distances to the mean) = 2 * |px - 3|
+    tot = [inter[j] + (2 * symx.Abs(pos[j] - 3.0)) / 2 for j in range(12)]
+    chosen = calls[-1][1]
+    k = KAPPAS.index(chosen) if chosen in KAPPAS else -1
+    I.prove('chosen-has-the-smallest-cost(real wire length)', k >= 0 and len(calls) == 13 and And(*[Le(tot[k], t, tol=1e-9) for t in tot]), side=True)
 
 
 def body_fp(I, case):
